@@ -150,6 +150,24 @@ class ConcProgram(Program):
             self.cur.held.add(mx.name)
             return Enum('Ok', [Opaque('guard', mx)])
 
+        @M(r'^(?:std::sync::)?Mutex::<.*>::try_lock$', regex=True)
+        def _(m, fr, a, mm):
+            mx = a[0].load() if isinstance(a[0], Ref) else a[0]
+            if not isinstance(mx, MutexObj):
+                raise Unsupported('Mutex::try_lock on something that is not a modelled static Mutex')
+            tid = self.cur.tid
+
+            def attempt():
+                if mx.held is None:
+                    mx.held = tid
+                    return True
+                return False
+            got = self.cur.access('T', (mx.name, 'lock'), attempt)
+            if got:
+                self.cur.held.add(mx.name)
+                return Enum('Ok', [Opaque('guard', mx)])
+            return Enum('Err', [Opaque('wouldblock')])
+
         @M(r"^<(?:std::sync::)?MutexGuard<'_, .*> as Deref(Mut)?>::deref(_mut)?$", regex=True)
         def _(m, fr, a, mm):
             g = a[0].load() if isinstance(a[0], Ref) else a[0]
@@ -389,7 +407,7 @@ def explore_schedules(P, k, max_schedules=20000, stop_at_race=False):
                 break
             if not ready:
                 raise Unsupported('deadlock: every unfinished thread waits for a held mutex')
-            if len(waiting) == 2 and nxt[0][0] not in 'LU' and nxt[1][0] not in 'LU':
+            if len(waiting) == 2 and nxt[0][0] not in 'LUT' and nxt[1][0] not in 'LUT':
                 (k0, l0, p0), (k1, l1, p1) = nxt[0], nxt[1]
                 if l0 == l1 and (k0 != 'R' or k1 != 'R') and not (p0 & p1) and race is None:
                     race = dict(at=len(trace), accesses=[(0, k0, l0), (1, k1, l1)], schedule_prefix=[t for t, _ in trace])
